@@ -36,7 +36,7 @@ PROPS_EQ = {
     },
     'C04': {
         'engine': 'eqsim',
-        'quick': {'runs': 700, 'steps': (15, 40), 'deadline_s': 80, 'chunk': 8, 'seed': 4},
+        'quick': {'runs': 1000, 'steps': (15, 40), 'deadline_s': 120, 'chunk': 8, 'seed': 4},
         'thorough': {'runs': 40000, 'steps': (15, 60), 'deadline_s': 900, 'chunk': 20, 'seed': 1004},
         'rule': _RULE + ('; C04 additionally replays every history on a twin universe with all flows x k in half '
                          'of the runs (scaling clause)'),
@@ -48,7 +48,10 @@ PROPS_EQ = {
                         'resolution (quantised liquid entropies of the bundled data) is part of the S bounds',
                         'a tolerance clause missed by the aged stream AND by a brand-new stream given the same '
                         'observable input is the listed baseline finding (region C04-fresh-baseline-miss), a clause '
-                        'missed by the aged stream only is a violation',
+                        'missed by the aged stream only is a violation - unless the passive solver seam saw the '
+                        'outermost solver or the last inner composition solve of that call leave unconverged '
+                        '(iteration cap / growing-error exit, silent in thermosteam): listed finding KF-C04-5 '
+                        '(region C04-silent-iteration-cap, about 2.5 % of calls)',
                         'seeded sampling inside the stated input domain, not exhaustive'],
         'components': COMPONENTS_EQ,
     },
